@@ -49,14 +49,28 @@ class ProtocolType(Protocol):
     VERSION: str
 
 
+def _major_minor(protocol_version: str) -> tuple[int, int]:
+    """Return the major and minor number of a version string."""
+    version = AwesomeVersion(protocol_version)
+    if version.major is None:
+        raise ValueError(f"Not a valid protocol version: {protocol_version!r}")
+    return int(version.major), int(version.minor or 0)
+
+
 @cache
 def get_protocol(protocol_version: str) -> ProtocolType:
-    """Return the protocol module for the protocol_version."""
+    """Return the protocol module for the protocol_version.
+
+    Raise ValueError if the version can't be parsed.
+    """
+    major_minor = _major_minor(protocol_version)
     module = next(
         (
             PROTOCOL_VERSIONS[_protocol_version]
-            for _protocol_version in sorted(PROTOCOL_VERSIONS, reverse=True)
-            if AwesomeVersion(protocol_version) >= AwesomeVersion(_protocol_version)
+            for _protocol_version in sorted(
+                PROTOCOL_VERSIONS, key=_major_minor, reverse=True
+            )
+            if major_minor >= _major_minor(_protocol_version)
         ),
         protocol_14,
     )
